@@ -95,6 +95,7 @@ struct Inspector {
     size_t stringUsers = 0;
     uint64_t stateHash = 0; // canonical: ids renumbered in walk order
     std::string refMismatch; // first string node whose count differs from its users
+    std::string refUnderflow; // first string node with fewer references than users (never legitimate)
   };
 
   // Checks the tree-shape invariants; throws sim::Violation(cls, …).
@@ -166,8 +167,9 @@ struct Inspector {
       if (n->references != users && rep.refMismatch.empty())
         rep.refMismatch = "string node reference count " + std::to_string(n->references) + " != users " +
                           std::to_string(users);
-      if (n->references < users)
-        sim::violate(cls, "inspector: string node has fewer references than users");
+      if (n->references < users && rep.refUnderflow.empty())
+        rep.refUnderflow = "string node has " + std::to_string(n->references) + " reference(s) but " + std::to_string(users) +
+                           " user(s): it will be released while still in use";
     }
     if (!stringUsers.empty())
       sim::violate(cls, "inspector: a value uses a string that is not in the document's string pool");
